@@ -73,8 +73,8 @@ theorem siteParams_pin : Gen.AdderSites.siteParams = [("NewAdder_x0", ["nstripes
   ("Adder_Value_u1", ["stripe_adder_Load", "value"]),
   ("Adder_Value_r0", ["value"])] := by rfl
 
-theorem shape_pin : Gen.AdderSites.shape = [("NewAdder", [0, 0, 1, 1, 0, 1]),
-  ("Adder_Add", [2, 0, 4, 0, 0, 2]),
-  ("Adder_Value", [1, 2, 3, 1, 0, 0])] := by rfl
+theorem shape_pin : Gen.AdderSites.shape = [("NewAdder", [0, 0, 1, 1, 0, 1, 0]),
+  ("Adder_Add", [2, 0, 4, 0, 0, 2, 0]),
+  ("Adder_Value", [1, 2, 3, 1, 0, 0, 0])] := by rfl
 
 end OtterVerif.Pin.AdderSites
